@@ -11,6 +11,7 @@
      LSend n      some task calls ws.send_text(n) (the server's send never suspends)
      LCloseCall   some task calls ws.close() and runs to its first suspension
      LCloseRun    that task is resumed
+     LCloseBad    some task calls ws.close(<invalid code>): ValueError, which it swallows
    Any enabled label may fire (over-approximates asyncio's FIFO ready queue).  The model
    starts right after ws.accept() has returned (pump task created, not yet run).
 
@@ -30,11 +31,12 @@ Inductive rpc := RIdle | RAwaitPop (ld : bool) | RAwaitServer | RHave (e : ev)
 Inductive cpc := CIdle | CStopping.
 Inductive wstate := Accepted | Closed.
 Inductive sev := SText (n : N) | SClose (code : Z).
-Inductive res := VMsg (n : N) | VOk | EDisc (c : option Z) | ECancelled | EAssert | EInvalidState.
+Inductive res := VMsg (n : N) | VOk | EDisc (c : option Z) | ECancelled | EAssert | EInvalidState
+               | EValueErr.
 Inductive opk := KRecv | KSend | KClose.
 Definition obs := (opk * res)%type.
 Inductive label := LServer | LPump | LRecvCall | LRecvRun | LRecvCancel | LSend (n : N)
-                 | LCloseCall | LCloseRun.
+                 | LCloseCall | LCloseRun | LCloseBad.
 
 (* cap        max_receive_queue
    queue      _messages
@@ -331,6 +333,13 @@ Definition step (fixed : bool) (l : label) (s : st) : option st :=
   | LSend n => Some (send_op n s)
   | LCloseCall => close_call s
   | LCloseRun => close_run s
+  | LCloseBad =>
+    (* repaired close(): the code is validated before anything else, the call has no effect.
+       (The code as found stopped the receiver first; that behaviour is modelled and refuted
+       in C17 -- C17_misuse_table_refuted_before_fix -- and is not a label of the pre-fix
+       system here.) *)
+    if fixed then match ctl s with CIdle => Some (logr KClose EValueErr s) | CStopping => None end
+    else None
   end.
 
 (* labels that are not enabled are skipped *)
